@@ -231,7 +231,7 @@ func main() {
 			if t == "thorough" {
 				return len(pairs) * 1500
 			}
-			return len(pairs) * 16
+			return len(pairs) * 40
 		},
 		Floor: func(t string) int {
 			if t == "thorough" {
